@@ -21,7 +21,7 @@ for d in sorted(glob.glob(os.path.join(V, "seeded", "*"))):
         missed += 1
     rows.append("| %s | %s | %s |" % (os.path.basename(d), s, m["detected_by"].replace("|", "/")))
 a = open(os.path.join(V, "tools", "design_partA.md")).read()
-a = a.replace("FIXED_TABLE", fixed).replace("SEEDED_TABLE", "\n".join(rows)).replace("NSEEDED", str(n)).replace("NMISSED", str(missed))
+a = a.replace("NFIXED", str(len(k["fixed"]))).replace("FIXED_TABLE", fixed).replace("SEEDED_TABLE", "\n".join(rows)).replace("NSEEDED", str(n)).replace("NMISSED", str(missed))
 marker = "# Round-0 plan (kept for reference; part A above is authoritative)\n"
 old = open(os.path.join(V, "DESIGN.md")).read()
 rest = old.split(marker, 1)[1]
